@@ -110,11 +110,13 @@ func migrationSteps(p *an.Prog) (map[int64]*ssa.Function, int64, bool) {
 }
 
 func runC13(p *an.Prog, r *an.Run, tier string) {
+	checkSurfaceClosed(p, r)
 	checkOneTxn(p, r, "one-txn")
 	checkSingleStoreWiring(p, r)
 	checkKeySpacesKnown(p, r)
 	checkKeyOperandTypes(p, r)
 	checkBadgerWriters(p, r)
+	checkLedgerWriterMethods(p, r)
 	// accepted nonces are among what must be read back: the persisted record's lifetime (C05.fresh) and the rest of the
 	// nonce-store rules
 	checkNonceStores(p, r)
